@@ -10,7 +10,7 @@ Oracle (driver, independent of the model): complete truth table of the unsimplif
 the result tree and against the library's own subs-evaluation of the result."""
 import vlib
 
-PROOF_MODULES = []   # C28 files are not in coq/_CoqProject yet: the .vo files are used as compiled
+PROOF_MODULES = ["C28/LogicTheorems.vo"]   # C28 files are not in coq/_CoqProject yet: the .vo files are used as compiled
 OBLIGATIONS = [
     "C28/P_keyless_equiv_eq.v", "C28/P_not_sound.v", "C28/P_and_sound.v", "C28/P_or_sound.v",
     "C28/P_nand_sound.v", "C28/P_nor_sound.v", "C28/P_xor_sound.v", "C28/P_xnor_sound.v",
